@@ -20,9 +20,10 @@ def flt(x):
 
 INTS = [0, 1, -1, 2, 3, 5, 10, 100, -7, MAXI, -MAXI, 2**53, 42]
 FLOATS = [0.0, 0.5, 1.0, 1.5, 2.0, -1.0, 0.1, 0.1 + 2**-56, 1e-20, 2e-20, 1e300, 100.0, 2.5, 3.0, 10.0]
-STRS = ["", "a", "ab", "b", "abc", "A", "é", "\U0001F600", "￿", "a b", "0", "ac", "cb", "ba", "x", "a\x7fb", "\x80", "\x9f\xa0"]
+STRS = ["", "a", "ab", "b", "abc", "A", "é", "\U0001F600", "￿", "a b", "0", "ac", "cb", "ba", "x", "a\x7fb", "\x80", "\x9f\xa0", "\U0010ffff\U000b1234"]
 PLAIN_NAMES = ["a", "b", "c", "d", "key", "k1", "_x", "é", "\U0001F600", "ab"]
-ODD_NAMES = ["0", "1", " ", "a b", "a.b", "*", "$", "@", "-1", "01", "a,b", "[0]", "", "a\x7f", "\x85x", "k\xa0", "\u2028"]   # need bracket notation, still plain
+ODD_NAMES = ["0", "1", " ", "a b", "a.b", "*", "$", "@", "-1", "01", "a,b", "[0]", "", "a\x7f", "\x85x", "k\xa0", "\u2028",
+             "\U0010ffff", "p\U000a0000", "\U000fabcd\ud7ff\ue000", "\U00010000\U0001ffff"]   # need bracket notation, still plain
 HOSTILE_NAMES = ["a'b", "a\\b", "a/b", "a~b", "~0", "~1", "'a'", '"a"', "a\tb", "a\nb", "'", '"', "\\", "\u0001", "a\"b", "\\n", "\\t"]
 
 
@@ -121,7 +122,40 @@ class Gen:
         q = self.query()
         self.doc_names = None
         self.doc_vals = None
+        if self.r.random() < 0.12:
+            d = self.add_decoys(d, q)
         return q, d
+
+    def add_decoys(self, d, q):
+        """members whose NAME is the raw spelling of a quoted name selector of the query (quotes, escapes and all), next to the
+        member the selector denotes: code that matches spellings instead of names picks the wrong one"""
+        raws = set()
+        def names_of(t):
+            if isinstance(t, tuple) and t:
+                if t[0] in ("name", "n") and len(t) == 2 and isinstance(t[1], tuple) and t[1] and t[1][0] == "s":
+                    raw = unS(t[1])
+                    if raw[:1] in ("'", '"') and len(raw) >= 2:
+                        raws.add(raw)
+                for x in t[1:]:
+                    names_of(x)
+        names_of(q)
+        if not raws:
+            return d
+        def walk(t):
+            if isinstance(t, tuple) and t and t[0] == "o":
+                members = [(unS(k), walk(v)) for k, v in t[1:]]
+                have = set(k for k, _ in members)
+                for raw in raws:
+                    inner = raw[1:-1]
+                    if (inner in have or self.r.random() < 0.2) and raw not in have:
+                        members.append((raw, ("i", 777)))
+                        have.add(raw)
+                members.sort(key=lambda kv: [ord(c) for c in kv[0]])
+                return ("o",) + tuple((S(k), v) for k, v in members)
+            if isinstance(t, tuple) and t and t[0] == "a":
+                return ("a",) + tuple(walk(v) for v in t[1:])
+            return t
+        return walk(d)
 
     def spell_name(self, k, quoted=False):
         r = self.r
